@@ -209,6 +209,10 @@ def walks(rows, seed, n_walks, steps):
 def run_prog(chk, p, rows, classes, n_walks, steps):
     qml, _ = P.binding_doc([p])
     gadget = bool(p.get("gadget"))
+    if p.get("chain"):
+        # a chain of bindings: t1.ival is bound to the program, t0.ival to t1.ival, t0 is what is watched
+        qml = qml.replace("  TSource { id: t0\n", "  TSource { id: t1\n", 1)
+        qml = qml[:qml.rindex("}")] + "  TSource { id: t0\n    ival: t1.ival\n  }\n}\n"
     if gadget:
         qml = qml.replace("    ival: ", "    font.bold: true\n    font.family: \"n\"\n    font.pointSize: ", 1)
     res = translate([{"id": p["id"], "src": qml, "type_name": "Doc", "modes": ["generate"]}], metatypes=[VERIF_METATYPES], procs=1)
@@ -219,13 +223,13 @@ def run_prog(chk, p, rows, classes, n_walks, steps):
         return {"skip": True}
     hists, table = w
     files = {"main.cpp": main_cpp(classes, members, p["prop"], gadget), "ui_doc.h": ui_h, "uisupport_doc.h": run["header"]}
-    d = os.path.join(chk.work, p["id"] + ("g" if gadget else ""))
+    d = os.path.join(chk.work, p["id"] + ("g" if gadget else "") + ("c" if p.get("chain") else ""))
     first = True
     results = []
     for hist in hists:
         lines = ["init " + "\x1f".join(hist[0][1])] + ["set " + step for step, _ in hist[1:]]
         if first:
-            crc, cerr, rrc, out, err = cxx.compile_run(chk.work, p["id"] + ("g" if gadget else ""), files, "\n".join(lines) + "\n")
+            crc, cerr, rrc, out, err = cxx.compile_run(chk.work, p["id"] + ("g" if gadget else "") + ("c" if p.get("chain") else ""), files, "\n".join(lines) + "\n")
             first = False
             if crc != 0:
                 return {"crc": crc, "cerr": cerr, "qml": qml, "header": run["header"]}
@@ -322,7 +326,8 @@ def run(chk):
     sel = acc if not quick else acc[:40] + random.Random(chk.seed).sample(acc[40:], min(len(acc) - 40, 30)) if len(acc) > 40 else acc
     n_walks, steps = (3, 14) if quick else (8, 30)
     # the same int-valued programs bound to a member of a grouped value that also has constant members
-    sel = sel + [dict(p, gadget=True) for p in [q for q in sel if q["prop"] == "ival"][:(12 if quick else 200)]]
+    ints = [q for q in sel if q["prop"] == "ival"]
+    sel = sel + [dict(p, gadget=True) for p in ints[:(12 if quick else 200)]] + [dict(p, chain=True) for p in ints[-(12 if quick else 200):]]
     with ThreadPoolExecutor(14) as ex:
         results = list(ex.map(lambda p: run_prog(chk, p, rows_of[p["id"]], classes, n_walks, steps), sel))
     for p, res in zip(sel, results):
